@@ -29,6 +29,10 @@ inductive Region where
   | mergeJoinTupleNullKey
   | transitiveEdgeFromNullsafeEquality
   | hashJoinTupleKeyNotByEquality
+  | lookupJoinProbeKeyRounded
+  | semiJoinDistinctNotByKeyEquality
+  | notInAsLeftOuterJoin
+  | lookupJoinNullsafeForAllKeyParts
   deriving DecidableEq, Repr
 
 def Region.name : Region → String
@@ -37,6 +41,10 @@ def Region.name : Region → String
   | .mergeJoinTupleNullKey => "merge_join_tuple_null_key"
   | .transitiveEdgeFromNullsafeEquality => "transitive_edge_from_nullsafe_equality"
   | .hashJoinTupleKeyNotByEquality => "hash_join_tuple_key_not_by_equality"
+  | .lookupJoinProbeKeyRounded => "lookup_join_probe_key_rounded"
+  | .semiJoinDistinctNotByKeyEquality => "semi_join_distinct_not_by_key_equality"
+  | .notInAsLeftOuterJoin => "not_in_as_left_outer_join"
+  | .lookupJoinNullsafeForAllKeyParts => "lookup_join_nullsafe_for_all_key_parts"
 
 /-- Number of top-level conjuncts. -/
 def conjuncts : Expr → Nat
@@ -105,12 +113,65 @@ def sharedNullsafe (q : Query) : Bool :=
 
 def dbHasNull (db : Db) : Bool := db.any fun t => t.rows.any fun r => r.any Value.isNull
 
+/-- A conjunct of the predicate is `e NOT IN (subquery)`. -/
+def predHasNotIn : Expr → Bool
+  | .not (.inSub _ _) => true
+  | .and a b => predHasNotIn a || predHasNotIn b
+  | _ => false
+
+/-- Some WHERE of the statement's outer block(s) has a `NOT IN (subquery)` conjunct. -/
+def whereNotIn : Query → Bool
+  | .filter p q => predHasNotIn p || whereNotIn q
+  | .project _ q => whereNotIn q
+  | .group _ _ _ q => whereNotIn q
+  | .distinct q => whereNotIn q
+  | .join _ _ l r => whereNotIn l || whereNotIn r
+  | _ => false
+
+/-- `LeftOuterMergeJoin` / `LeftOuterLookupJoin`: the left outer joins that have no
+`…ExcludingNulls` variant. -/
+def isPlainLeftOuterOp (s : String) : Bool := s == "LeftOuterMergeJoin" || s == "LeftOuterLookupJoin"
+
+/-- * `not_in_as_left_outer_join` — the memo implements the anti join of `x NOT IN (SELECT y …)` as
+  `Filter(y-side IS NULL, LeftOuter{Merge,Lookup}Join(x = y))`. That is the NOT EXISTS reading: a left
+  row whose `x` is NULL, and every unmatched left row when some `y` is NULL, is kept although NOT IN
+  is NULL there (only the hash variant has an `ExcludingNulls` form). Region: a `NOT IN (subquery)`
+  conjunct in a WHERE, a plain left outer merge/lookup join in the plan, a NULL in the database. -/
+def notInRegion (db : Db) (q : Query) (ops : List String) : Bool :=
+  whereNotIn q && ops.any isPlainLeftOuterOp && dbHasNull db
+
+/-- Column-to-column conjuncts of an ON condition with the given comparison. -/
+def colCmpConj (op : CmpOp) : Expr → Nat
+  | .and a b => colCmpConj op a + colCmpConj op b
+  | .cmp o (.col 0 _) (.col 0 _) => if o == op then 1 else 0
+  | _ => 0
+
+/-- Some join's ON has a `<=>` conjunct beside an `=` conjunct (both column to column). -/
+def mixedNullsafeOn : Query → Bool
+  | .join _ on l r =>
+    (colCmpConj .nseq on ≥ 1 && colCmpConj .eq on ≥ 1) || mixedNullsafeOn l || mixedNullsafeOn r
+  | _ => false
+
+def isLookupJoinOp (s : String) : Bool :=
+  s == "LookupJoin" || s == "LeftOuterLookupJoin" || s == "SemiLookupJoin" || s == "AntiLookupJoin"
+    || s == "AntiLookupIncludingNulls"
+
+/-- * `lookup_join_nullsafe_for_all_key_parts` — when ONE conjunct of a join condition is `<=>`, the
+  index lookup built for the join matches NULL keys for EVERY key part it is keyed on — also for a
+  part that comes from a plain `=` conjunct, which is then dropped as "implied by the lookup": rows
+  whose `=` columns are both NULL join. Region: an ON with a `<=>` conjunct beside an `=` conjunct, a
+  lookup join in the plan, a NULL in the database. -/
+def nullsafeLookupRegion (db : Db) (q : Query) (ops : List String) : Bool :=
+  mixedNullsafeOn (joinTree q) && ops.any isLookupJoinOp && dbHasNull db
+
 def region (db : Db) (q : Query) (ops : List String) : Option Region :=
   if multiConjInnerAboveLeft (joinTree q) && outerAboveInner ops then
     some .innerConjunctLostAtOuterJoin
   else if ops.contains "TupleCmp" && dbHasNull db then some .mergeJoinTupleNullKey
   else if sharedNullsafe (joinTree q) then some .transitiveEdgeFromNullsafeEquality
   else if hasTupleNotIn q && ops.any isHashExclOp then some .hashExcludeNullsProbeMiss
+  else if notInRegion db q ops then some .notInAsLeftOuterJoin
+  else if nullsafeLookupRegion db q ops then some .lookupJoinNullsafeForAllKeyParts
   else none
 
 /-! ### Regions of the `keq` stream (join keys whose equality is not byte equality)
@@ -134,7 +195,31 @@ def dbHasKeyVariants (kss : List (List Gms.PhysKeys.KeyKind)) (db : Db) : Bool :
   let kv := keyValues kss db
   kv.any fun a => kv.any fun b => a.1 == b.1 && a.2 != b.2
 
-/-- * `hash_join_tuple_key_not_by_equality` — `plan.NewHashLookup` derives `leftKeySch` from the
+/-- Some key column is of an integral numeric type. -/
+def hasIntegralKeyColumn (kss : List (List Gms.PhysKeys.KeyKind)) : Bool :=
+  kss.any fun ks => ks.contains .numZ
+
+/-- Some stored value of a fraction-capable numeric key column is not an integer. -/
+def hasFractionalKey (kss : List (List Gms.PhysKeys.KeyKind)) (db : Db) : Bool :=
+  (kss.zip db).any fun p => p.2.rows.any fun row => (p.1.zip row).any fun kv =>
+    kv.1 == .num && (match Gms.PhysKeys.normValue kv.1 kv.2 with
+      | some (.int n) => n % 1000 != 0
+      | _ => false)
+
+def isLookupOp (s : String) : Bool :=
+  s == "LookupJoin" || s == "LeftOuterLookupJoin" || s == "SemiLookupJoin" || s == "AntiLookupJoin"
+    || s == "AntiLookupIncludingNulls"
+
+/-- * `semi_join_distinct_not_by_key_equality` — the memo turns a semi join (`IN` / `EXISTS`) into an
+  inner join over `Distinct(right side projected on the key)`; `plan.Distinct` hashes rows without a
+  schema (C07 `distinct_collation`, `distinct_decimal_scale`), so two right keys that are equal as
+  join keys but stored differently both survive and a left row matching them is returned twice —
+  unlike under a `Semi…Join` plan. Region: a `Distinct` in the plan and key variants in the database.
+* `lookup_join_probe_key_rounded` — a lookup join converts the probe value to the type of the
+  index column (`2.5` → `3` for a BIGINT index) and does not re-check the equality: rows join that
+  are not equal. Region: a lookup join in the plan, an integral key column, and a stored key value
+  of a fraction-capable key column that is not an integer.
+* `hash_join_tuple_key_not_by_equality` — `plan.NewHashLookup` derives `leftKeySch` from the
   single row-constructor expression of a multi-column key (`hash.ExprsToSchema(ctx, leftProbeKey)`: ONE
   column of tuple type), so `hash.HashOf` finds no `StringType` for the key parts and hashes strings
   by their bytes and decimals by their scale-preserving text: rows whose key parts are equal under the
@@ -144,6 +229,9 @@ def dbHasKeyVariants (kss : List (List Gms.PhysKeys.KeyKind)) (db : Db) : Bool :
 def keqRegion (kss : List (List Gms.PhysKeys.KeyKind)) (rawDb : Db) (_q : Query) (ops : List String) :
     Option Region :=
   if ops.contains "TupleKey" && dbHasKeyVariants kss rawDb then some .hashJoinTupleKeyNotByEquality
+  else if ops.contains "Distinct" && dbHasKeyVariants kss rawDb then some .semiJoinDistinctNotByKeyEquality
+  else if ops.any isLookupOp && hasIntegralKeyColumn kss && hasFractionalKey kss rawDb then
+    some .lookupJoinProbeKeyRounded
   else none
 
 end Gms.PhysRegions
